@@ -190,7 +190,7 @@ CODES = {1: "the real function panics where the model does not (or the reverse)"
 def run(ck, binp, seed, tier, viol):
     n = 4000 if tier == "quick" else 60000
     rc, out = sh([binp, "-mode", "amode", "-seed", str(seed), "-n", str(n)], timeout=600)
-    cases = [json.loads(l) for l in out.split("\n") if l.startswith("{")]
+    cases = jlines(out)
     if rc != 0 or not cases:
         viol("amode-process-fault", {"kind": "process-fault", "stream": "amode"}, {"rc": rc, "tail": out[-3000:]})
         return 0, 0, {}, []
